@@ -27,6 +27,8 @@
 (*   answer msg, tags | error text | orphan (an event without call key)    *)
 (*   input  first, beyond: the caller's input slice after its calls (first *)
 (*          element; non-empty cells of its backing array beyond its len)  *)
+(*   tresult out, tags | terror panic, escaped: outcome of a run of the    *)
+(*          ToolsNode graph (agent "tools", case fields nc, p)             *)
 (*   endcall, end                                                          *)
 (* What is demanded: every call produces exactly the observations it       *)
 (* would produce alone (histories contain only its own messages, in the    *)
@@ -69,7 +71,14 @@ HostExp(c) ==
     [] OTHER   -> <<hc, [k |-> "mcall", who |-> "s2", input |-> <<UserH(c)>>],
                    [k |-> "answer", msg |-> Msg("assistant", "s2:a" \o c.tag)]>>
 
-Expected(c) == IF c.agent = "host" THEN HostExp(c) ELSE ReactExp(c, 1, <<UserR(c)>>)
+\* ---- a ToolsNode in a graph (agent = "tools"): an assistant message with c.nc tool calls c<tag>.<i> / <tag>.<i>; call c.p > 1 (0: none)
+\* goes to a tool that panics: the run must then fail with an error that reports the panic, otherwise it returns the nc tool messages
+ToolsExp(c) ==
+  IF c.p > 0 THEN <<[k |-> "terror"]>>
+  ELSE <<[k |-> "tresult", out |-> [i \in 1..c.nc |-> [id |-> "c" \o c.tag \o "." \o ToString(i), role |-> "tool",
+                                                        content |-> "t(" \o c.tag \o "." \o ToString(i) \o ")", nil |-> FALSE]]]>>
+
+Expected(c) == IF c.agent = "host" THEN HostExp(c) ELSE IF c.agent = "tools" THEN ToolsExp(c) ELSE ReactExp(c, 1, <<UserR(c)>>)
 
 NoCase == [id |-> "", agent |-> "react", tag |-> "", user |-> "", n |-> 0, d |-> 0, w |-> 0, modifier |-> FALSE, alt |-> FALSE]
 Idle == [id |-> "", open |-> FALSE, bad |-> "", c |-> NoCase, incall |-> FALSE, p |-> 1, exp |-> <<>>, answers |-> <<>>, ncalls |-> 0, mode |-> ""]
@@ -98,6 +107,22 @@ AnswerRule(S, e) ==
   ELSE IF ~Due(S, "answer") THEN Bad(S, "answer-before-the-conversation-was-complete")
   ELSE IF Render(e.msg) # Cur(S).msg THEN Bad(S, "answer-is-not-the-one-this-calls-script-determines")
   ELSE [S EXCEPT !.p = @ + 1, !.answers = Append(@, Render(e.msg))]
+ToolsResultRule(S, e) ==
+  IF ~S.incall THEN Bad(S, "result-outside-a-call")
+  ELSE IF Due(S, "terror") THEN Bad(S, "run-succeeded-although-a-tool-panicked")
+  ELSE IF ~Due(S, "tresult") THEN Bad(S, "second-outcome-of-a-call")
+  ELSE IF Foreign(S, e) THEN Bad(S, "tool-messages-of-another-call")
+  ELSE IF [i \in 1..Len(e.out) |-> [id |-> e.out[i].id, role |-> e.out[i].role, content |-> e.out[i].content, nil |-> e.out[i].nil]] # Cur(S).out
+       THEN Bad(S, "tool-messages-are-not-the-answers-to-this-calls-own-tool-calls")
+  ELSE [S EXCEPT !.p = @ + 1]
+ToolsErrorRule(S, e) ==
+  IF ~S.incall THEN Bad(S, "error-outside-a-call")
+  ELSE IF Due(S, "tresult") THEN Bad(S, "call-failed")
+  ELSE IF ~Due(S, "terror") THEN Bad(S, "second-outcome-of-a-call")
+  ELSE IF e.escaped THEN Bad(S, "panic-escaped-the-run")
+  ELSE IF ~e.panic THEN Bad(S, "error-does-not-report-the-panic")
+  ELSE [S EXCEPT !.p = @ + 1]
+
 EndCallRule(S, e) ==
   IF ~S.incall THEN Bad(S, "endcall-outside-a-call")
   ELSE IF S.p # Len(S.exp) + 1 THEN Bad([S EXCEPT !.incall = FALSE], "call-ended-without-its-answer")
@@ -121,6 +146,8 @@ Apply(S, e) ==
          [] e.ev = "tool" -> ToolRule(S, e)
          [] e.ev = "answer" -> AnswerRule(S, e)
          [] e.ev = "error" -> Bad(S, "call-failed")
+         [] e.ev = "tresult" -> ToolsResultRule(S, e)
+         [] e.ev = "terror" -> ToolsErrorRule(S, e)
          [] e.ev = "orphan" -> Bad(S, "event-without-call-context")
          [] e.ev = "input" -> InputRule(S, e)
          [] e.ev = "endcall" -> EndCallRule(S, e)
